@@ -11,6 +11,7 @@ from streamz.dataframe import DataFrame
 PLAIN_AGGS = ["sum", "count", "size", "mean", "var", "var0", "std", "value_counts"]
 GROUP_AGGS = ["sum", "count", "size", "mean", "var", "var0", "std"]
 EXACT = {"sum", "count", "size", "value_counts"}
+PLAIN_AGGS_X = PLAIN_AGGS + ["var2"]
 
 
 def _apply(obj, agg, grouped):
@@ -26,6 +27,8 @@ def _apply(obj, agg, grouped):
         return obj.var(ddof=1)
     if agg == "var0":
         return obj.var(ddof=0)
+    if agg == "var2":
+        return obj.var(ddof=2)
     if agg == "std":
         return obj.std(ddof=1)
     if agg == "value_counts":
@@ -33,10 +36,11 @@ def _apply(obj, agg, grouped):
     raise ValueError(agg)
 
 
-def run_impl(case):
-    """Returns list of canonical results, one per batch (or raises)."""
+def run_impl_steps(case):
+    """Returns one canonical result per batch; a batch whose emit raised is ['exc', <exception class>].
+    The example frame has one row: with an empty example Series.var() already divides 0/0 at construction."""
     dt = case["kind"] == "t"
-    ex = D.mkframe([], dt)
+    ex = D.mkframe([[0, 0, 1]], dt)
     source = Stream()
     sdf = DataFrame(source, example=ex)
     if case["kind"] == "n":
@@ -51,9 +55,21 @@ def run_impl(case):
     else:
         res = _apply(w.x, case["agg"], False)
     L = res.stream.sink_to_list()
+    out = []
     for b in D.batches_of(case["rows"], case["sizes"]):
-        source.emit(D.mkframe(b, dt))
-    return [D.canon(r) for r in L]
+        n0 = len(L)
+        try:
+            source.emit(D.mkframe(b, dt))
+        except Exception as e:
+            out.append(["exc", type(e).__name__])
+            del L[n0:]
+            continue
+        if len(L) != n0 + 1:
+            out.append(["exc", "emitted-%d-results" % (len(L) - n0)])
+            del L[n0:]
+            continue
+        out.append(D.canon(L[-1]))
+    return out
 
 
 def window_rows(case, k):
@@ -90,6 +106,10 @@ def compare(case, got, exp):
         return (min(len(got), len(exp)), "emission-count")
     exact = case["agg"] in EXACT
     for i, (a, b) in enumerate(zip(got, exp)):
+        if a[0] == "exc" or b[0] == "exc":
+            if a != b:
+                return (i, "raises-" + (a[1] if a[0] == "exc" else "oracle"))
+            continue
         if case["agg"] == "value_counts":
             # "every value present in the window is reported with its exact count"; absent values may show 0
             a = ["m", [kv for kv in a[1] if kv[1] != 0]] if a[0] == "m" else a
